@@ -1,0 +1,1 @@
+//! verif-hooks: intfns area (read-only accessors; see mod.rs)
